@@ -56,17 +56,50 @@ func runStressInChild(r *hx.Run) {
 		err = fmt.Errorf("killed after %s", childTimeout)
 	}
 	if err != nil {
-		// the side file has what was observed before the process died
+		// the side file has what was observed before the process died: the failing cases are rebuilt from it (a
+		// `stress <kind> <seed>` line followed by the logs judged so far), so that every finding keeps its failing input
 		if f, e := os.Open(filepath.Join(dir, "findings.jsonl")); e == nil {
 			sc := bufio.NewScanner(f)
-			sc.Buffer(make([]byte, 1<<20), 1<<24)
+			sc.Buffer(make([]byte, 1<<20), 1<<26)
+			var order []string
+			groups := map[string][]sideRec{}
 			for sc.Scan() {
-				var fd hx.Finding
-				if json.Unmarshal(sc.Bytes(), &fd) == nil {
-					r.Fail(fd.Oracle, fd.Detail, fd.Signature)
+				var rec sideRec
+				if json.Unmarshal(sc.Bytes(), &rec) != nil {
+					continue
 				}
+				key := ""
+				if len(rec.Lines) > 0 {
+					key = rec.Lines[0]
+				}
+				if _, seen := groups[key]; !seen {
+					order = append(order, key)
+				}
+				groups[key] = append(groups[key], rec)
 			}
 			f.Close()
+			for n, key := range order {
+				recs := groups[key]
+				if key != "" && n < 200 {
+					var seed uint64
+					if kf := strings.Fields(key); len(kf) >= 3 && kf[0] == "stress" {
+						seed, _ = strconv.ParseUint(kf[2], 10, 64)
+					}
+					r.Case(seed)
+					emitted := map[string]bool{}
+					for _, rec := range recs {
+						for _, l := range rec.Lines {
+							if i := strings.LastIndex(l, " => "); i > 0 && !emitted[l] {
+								emitted[l] = true
+								r.Line(l[:i], l[i+4:])
+							}
+						}
+					}
+				}
+				for _, rec := range recs {
+					r.Fail(rec.Oracle, rec.Detail, rec.Signature)
+				}
+			}
 		}
 		msg := stderr.String()
 		kind := "crash"
